@@ -32,6 +32,8 @@ func main() {
 		runC17(r)
 	case "C14":
 		runC14(r)
+	case "C16":
+		runC16(r)
 	default:
 		fmt.Println("chainmc: unknown property", os.Args[1])
 		os.Exit(2)
